@@ -5,6 +5,10 @@ mod streams;
 mod oracle;
 mod refimpl;
 mod cli;
+mod allocs;
+
+#[global_allocator]
+static GLOBAL: allocs::Counting = allocs::Counting;
 
 use std::collections::HashMap;
 
@@ -28,6 +32,8 @@ fn main() {
         "hist" => streams::stream_hist(&opt),
         "dend" => streams::stream_dend(&opt),
         "capi" => streams::stream_capi(&opt),
+        "cost" => streams::stream_cost(&opt),
+        "alloc" => allocs::stream_alloc(&opt),
         "oracle" => oracle::run(&opt),
         "cliexpect" => cli::run(&opt),
         _ => { eprintln!("unknown command {}", cmd); 2 }
